@@ -110,32 +110,77 @@ fn run_case(ctx: &Ctx, gf: &Gf, K: usize, T: usize, seed: u64, route: u64, rel: 
             }
         }
     }
-    // decoder side: decode(packets(A) xor packets(B)) = A xor B (drop the first source symbols)
-    if route % 3 == 0 {
+    // decoder side, for every case: (i) decode(packets(A) xor packets(B)) = A xor B, (ii) decoding
+    // behaves identically for every symbol size: decoding byte column j alone (T = 1, same ESIs) gives
+    // column j of the block decoded at T. Two source symbols are dropped so the solver runs.
+    {
+        let drop = 2.min(K - 1);
         let r = guarded(|| {
-            let mut d = Decoder::new(cfg);
-            let mut out = None;
-            // all source packets except the first 2, plus the repair ones
             let ea = build(&a);
             let eb = build(&b);
             let sa = ea.source_packets();
             let sb = eb.source_packets();
             let ra = ea.repair_packets(0, 6);
             let rb = eb.repair_packets(0, 6);
-            for (x, y) in sa.iter().zip(sb.iter()).skip(2.min(K - 1)).chain(ra.iter().zip(rb.iter())) {
+            let mut d = Decoder::new(cfg);
+            let mut out = None;
+            for (x, y) in sa.iter().zip(sb.iter()).skip(drop).chain(ra.iter().zip(rb.iter())) {
                 let d2: Vec<u8> = x.data().iter().zip(y.data().iter()).map(|(p, q)| p ^ q).collect();
                 if out.is_none() {
                     out = d.decode(EncodingPacket::new(x.payload_id().clone(), d2));
                 }
             }
-            out
+            // the same reception for A alone, at T and per column at T = 1
+            let mut da = Decoder::new(cfg);
+            let mut out_a = None;
+            for x in sa.iter().skip(drop).chain(ra.iter()) {
+                if out_a.is_none() {
+                    out_a = da.decode(x.clone());
+                }
+            }
+            let mut cols = vec![];
+            for j in [0usize, T - 1, T / 2] {
+                let mut dc = Decoder::new(cfg1);
+                let mut oc = None;
+                for x in sa.iter().skip(drop).chain(ra.iter()) {
+                    if oc.is_none() {
+                        oc = dc.decode(EncodingPacket::new(x.payload_id().clone(), vec![x.data()[j]]));
+                    }
+                }
+                cols.push((j, oc));
+            }
+            (out, out_a, cols)
         });
         rel[3].fetch_add(1, Relaxed);
         match r {
-            Ok(Some(v)) if v == ab => {}
-            Ok(None) => {} // rank deficiency of this particular set: not this property's concern
-            Ok(Some(_)) => ctx.violation(format!("C09 decode-linearity K={K} T={T}"), format!("K={K} T={T}: decoding packets(A) xor packets(B) does not give A xor B"), case()),
             Err(m) => ctx.violation(format!("C09 decode-panic K={K} T={T}"), format!("K={K} T={T}: decoder panicked: {}", short(&m, 100)), case()),
+            Ok((out, out_a, cols)) => {
+                // None = rank deficiency of this particular set: not this property's concern
+                if let Some(v) = &out {
+                    if *v != ab {
+                        ctx.violation(format!("C09 decode-linearity K={K} T={T}"), format!("K={K} T={T}: decoding packets(A) xor packets(B) does not give A xor B"), case());
+                    }
+                }
+                if let Some(v) = &out_a {
+                    if *v != a {
+                        ctx.violation(format!("C09 decode K={K} T={T}"), format!("K={K} T={T}: decoding K-{drop} source + 6 repair packets of A does not give A"), case());
+                    }
+                }
+                for (j, oc) in cols {
+                    let want: Vec<u8> = (0..K).map(|i| a[i * T + j]).collect();
+                    match (oc, &out_a) {
+                        (Some(c), _) if c != want => {
+                            ctx.violation(format!("C09 decode-column K={K} T={T} col={j}"), format!("K={K} T={T}: decoding byte column {j} alone (symbol size 1, same ESIs) gives {:02x?}..., the column of the source block is {:02x?}...", &c[..c.len().min(6)], &want[..want.len().min(6)]), case());
+                            break;
+                        }
+                        (None, Some(_)) | (Some(_), None) => {
+                            ctx.violation(format!("C09 decode-column-outcome K={K} T={T} col={j}"), format!("K={K} T={T}: the same reception decodes at one symbol size but not at the other (column {j} at T=1 vs the block at T={T})"), case());
+                            break;
+                        }
+                        _ => {}
+                    }
+                }
+            }
         }
     }
     ctx.nontrivial_many(local);
@@ -229,7 +274,7 @@ pub fn run(ctx: &Ctx) -> i32 {
     ctx.floor("decoder_linearity_checks", rel[3].load(Relaxed), 50);
     ctx.floor("relation_instances_T_ge_2", ctx.distinct_count() as u64, 5000);
     ctx.finish(
-        "metamorphic relations on real encoder output: for K in {1,9,10,11,60,250,300,1000} x every symbol size T in 1..=200 and {255,256,257,1023,1024,1025,1280,1316} (every residue modulo the 8/16/32/64-byte kernel strides) x data pairs (random, one-hot, 0xFF) x a random scalar, for source ESIs, the first repair ESIs, ESIs uniform in [K,2^24) and 2^24-1, via new (cached plan) and via with_encoding_plan: packets(A xor B) = packets(A) xor packets(B); packets(c*A) = c*packets(A) (reference field); byte j of the size-T packet = the T=1 packet of byte column j; decode(packets(A) xor packets(B)) = A xor B; and additivity of Encoder on multi-block / sub-blocked objects. non-trivial = relation instance with T>=2; distinct by (K,T,ESI)",
+        "metamorphic relations on real encoder output: for K in {1,9,10,11,60,250,300,1000} x every symbol size T in 1..=200 and {255,256,257,1023,1024,1025,1280,1316} (every residue modulo the 8/16/32/64-byte kernel strides) x data pairs (random, one-hot, 0xFF) x a random scalar, for source ESIs, the first repair ESIs, ESIs uniform in [K,2^24) and 2^24-1, via new (cached plan) and via with_encoding_plan: packets(A xor B) = packets(A) xor packets(B); packets(c*A) = c*packets(A) (reference field); byte j of the size-T packet = the T=1 packet of byte column j; decode(packets(A) xor packets(B)) = A xor B and decoding byte column j alone at T=1 gives column j of the block decoded at T (same reception, two source symbols dropped); and additivity of Encoder on multi-block / sub-blocked objects. non-trivial = relation instance with T>=2; distinct by (K,T,ESI)",
         &["scalar multiplication by the harness's reference field"],
         vec![],
     )
